@@ -29,6 +29,10 @@ text extractor and the CMap parser, restricted to crate-local bodies.
  R7 allocation sizes: `with_capacity(n)`, `vec![x; n]`, `reserve(n)`, `resize(n, ..)` whose size is an untrusted integer (as in
     R1, carried through parameters: an argument that is untrusted and unbounded at some call site makes the parameter untrusted)
     are dominated by an ordered comparison of that value with an upper bound (not merely `< 0` / `> 0`).
+ R8 offset indices: an index `a[i + k]` (k a positive constant) whose `i` is the variable of an integer range loop (`for i in lo..hi`,
+    `(lo..hi).step_by(n)`) is dominated by an ordered comparison involving an addition on that `i`, or the range's bound was
+    computed by a subtraction: the range alone keeps only `i` below the bound, so the last k positions read past the end (a
+    truncated final row panics). Today's tree has no such site; the seeded change C01b is the positive example.
 Not decided: wall-clock bounds, total allocation, panics depending on values of unknown provenance
 (counted as undecided), arithmetic inside dependencies.
 """
@@ -135,6 +139,22 @@ def run(ctx):
                           "(`/Length 9999999999999`) request terabytes and the process aborts in the allocator instead of returning an "
                           "error" % (L.short(owner), nm, cls[1]), fn.where(b), {"call_path": facts.path_to(pred, owner)[-5:]})
     ctx.floor("R7", "size-taking allocations in scope", na, 30)
+    # ---- R8 offset indices
+    n8 = 0
+    ord8 = {}
+    for fn, b, k, ok in AR.offset_index_sites(facts, scope):
+        n8 += 1
+        owner = fn.parent or fn.id
+        ord8[owner] = ord8.get(owner, 0) + 1
+        key = "index:%s:+%d#%d" % (owner, k, ord8[owner])
+        if ok:
+            ctx.ok("R8", key, "offset index guarded by a comparison of the offset value", fn.where(b))
+        else:
+            ctx.violation("R8", key, "%s indexes with `i + %d` where no dominating comparison involves `i + %d` (or a `len - %d` bound): "
+                          "a loop or test that only keeps `i` inside the slice lets the last %d position(s) read past the end — an "
+                          "out-of-bounds panic on input whose length is not a multiple of the stride (e.g. a truncated final row)"
+                          % (L.short(owner), k, k, k, k), fn.where(b))
+    ctx.counts["R8:offset indices on range-loop variables"] = n8     # expected 0 on today's tree; seeded/C01b is the positive example
     ctx.floor("R1", "functions returning untrusted integers", len(ar.ret_u), 20)
     # ---- R2
     sub = type(ctx)(ctx.prop, ctx.tier, ctx.facts, ctx.config)
